@@ -46,9 +46,7 @@ func vh_RO() {
 		vAssert(vImplies(op.OperationType == LeaseBasedReadOnly, leaseValid), "C17.lease-serve-needs-valid-lease")
 		vAssert(op.LogIndex == 0, "C03.read-not-in-log")
 	}
-	r.mu.Lock()
-	committed = r.committedThisTerm()
-	r.mu.Unlock()
+	committed = vRefCommittedThisTerm(&pre)
 	ctl := &vLoopCtl{}
 	var post vSnap
 	ctl.after = func() { post = vSnapshotNode(n) }
